@@ -7,6 +7,7 @@ import (
 	"fmt"
 	"os"
 	"runtime"
+	"runtime/debug"
 	"strings"
 	"time"
 
@@ -79,6 +80,11 @@ func (e *executor) rtConfig() wazero.RuntimeConfig {
 
 func runHistory(h *History, twin bool, progress func(step int)) *childOut {
 	e := &executor{h: h, twin: twin, ctx: context.Background(), out: &childOut{Counters: map[string]int{}}}
+	if twin {
+		// the twin is the "nothing is ever closed, dropped or collected" run: objects the host cannot pin
+		// (e.g. the instance of a failed instantiation) must not be collected either
+		defer debug.SetGCPercent(debug.SetGCPercent(-1))
+	}
 	e.rng = core.NewRng(int64(h.Seed), 33)
 	e.out.Obs = make([]string, len(h.Steps))
 	for _, s := range h.Mods {
@@ -96,7 +102,12 @@ func runHistory(h *History, twin bool, progress func(step int)) *childOut {
 		e.comps[r] = make([]wazero.CompiledModule, len(h.Mods))
 		hm, err := e.rts[r].NewHostModuleBuilder("host").NewFunctionBuilder().
 			WithGoModuleFunction(api.GoModuleFunc(func(ctx context.Context, mod api.Module, stack []uint64) { e.act() }),
-				[]api.ValueType{api.ValueTypeI32}, nil).Export("act").Instantiate(e.ctx)
+				[]api.ValueType{api.ValueTypeI32}, nil).Export("act").
+			NewFunctionBuilder().
+			WithGoModuleFunction(api.GoModuleFunc(func(ctx context.Context, mod api.Module, stack []uint64) {
+				mod.CloseWithExitCode(ctx, uint32(stack[0])) // start function of a failing module: exit(code)
+			}), []api.ValueType{api.ValueTypeI32}, nil).Export("exit").
+			Instantiate(e.ctx)
 		if err != nil {
 			panic("host module: " + err.Error())
 		}
@@ -248,6 +259,9 @@ func (e *executor) exec(op *Op, inCall bool) string {
 			}
 			if err != nil {
 				e.count("instantiate_errors")
+				if e.h.Mods[op.Slot].Fail > 0 {
+					e.count("failing_instantiations_with_element_segment_into_shared_table")
+				}
 				return errClass(err)
 			}
 			e.insts[op.Inst] = mod
@@ -347,7 +361,9 @@ func (e *executor) exec(op *Op, inCall bool) string {
 			return fmtRes(res, err)
 		})
 	case "gc":
-		e.gcStep()
+		if !e.twin { // the twin never collects during a history (see runHistory)
+			e.gcStep()
+		}
 		return ""
 	case "churn":
 		e.churn(op.N)
